@@ -181,6 +181,13 @@ func cmdCheck(args []string) int {
 	// resolve again against the engine's own spec set
 	for _, c0 := range mine {
 		c := eng.contractsByKey[c0.Key()]
+		if c0.Flags["view"] != "" {
+			for _, cc := range eng.ss.Contracts {
+				if cc.File == c0.File && cc.Line == c0.Line {
+					c = cc
+				}
+			}
+		}
 		r := eng.Verify(c, quick)
 		results = append(results, r)
 		for _, o := range r.Obls {
